@@ -1458,6 +1458,18 @@ def run(ck):
     bc3, bm3 = run_sweeps(ck, exes, sweeps, 4000 if quick else 20000, stats)
     bad_corr += bc3
     bad_mon += bm3
+    # traversal through range() sub-ranges (what a parallel algorithm over the container does) against concurrent inserts: the traversing
+    # thread is held at every scheduling point while the inserters complete (a key that becomes the first element of the bucket a range was
+    # split at must not move the sub-range's boundaries)
+    pre = ["ins:%d" % k for k in range(8, 32)]
+    range_scs = [{"kind": kind, "family": "range", "bc": 8, "mlf": (4, 1), "pre": pre,
+                  "progs": [["rtrav"], ["ins:%d" % k for k in list(range(0, 8)) + list(range(32, 40))], ["ins:%d" % k for k in range(40, 56)]]}
+                 for kind in (["uset", "ummap"] if quick else ["uset", "umset", "umap", "ummap"])]
+    range_scs += [{"kind": kind, "family": "range", "pre": ["ins:%d:%d" % (10 * i, 1 + i % 3) for i in range(1, 9)],
+                   "progs": [["rtrav"], ["ins:25:4", "ins:45:5", "ins:5:3", "ins:65:4"], ["ins:35:2", "ins:15:3", "ins:55:6"]]}
+                  for kind in (["oset"] if quick else ["oset", "omset", "omap", "ommap"])]
+    _, bm_r = run_sweeps(ck, exes, range_scs, 500 if quick else 4000, stats, with_model=False)
+    bad_mon += bm_r
     bad_mon += run_dfs(ck, exes, CORPUS, 2, 6000 if quick else 150000, stats)
     bad_mon += run_dfs(ck, exes, SWEEP_CORPUS, 2, 12000 if quick else 400000, stats)
     if not quick:
